@@ -3,6 +3,7 @@ package main
 import (
 	"fmt"
 	"go/token"
+	"go/types"
 	"strings"
 
 	"golang.org/x/tools/go/ssa"
@@ -10,10 +11,10 @@ import (
 
 func init() {
 	register("C19",
-		"Decides structural necessary conditions of save/load fidelity: the snapshot written for an entry carries the node's key, value, weight and both deadlines (C19.fields); SaveCacheTo draws its entries from the eviction-order iterator, which yields only alive, unexpired entries after running maintenance under the lock (C19.source, C03.filter); LoadCacheFrom skips entries whose deadline is <= the load time - the boundary of every variant's HasExpired (C19.filter); it re-inserts with Set and then restores the remaining durations deadline - now with the same clock sample, clamped to at least 1, each guarded by its configuration flag and the 'unreachable' sentinel (C19.restore); both loops stop at the maximum and account each entry's weight (C19.bound). "+
+		"Decides structural necessary conditions of save/load fidelity: the snapshot written for an entry carries the node's key, value, weight and both deadlines (C19.fields); SaveCacheTo draws its entries from the eviction-order iterator, which yields only alive, unexpired entries after running maintenance under the lock (C19.source, C03.filter); LoadCacheFrom skips entries whose deadline is <= the load time - the boundary of every variant's HasExpired (C19.filter); it re-inserts with Set and then restores the remaining durations deadline - now with the same clock sample, clamped to at least 1, each guarded by its configuration flag and the 'unreachable' sentinel (C19.restore); both loops stop at the maximum and account each entry's weight (C19.bound); every record is decoded into a fresh zero Entry (C19.filter); the deadline setters the loader relies on store the requested deadline on a live entry unless a comparison with that very deadline shows it in place (C12.hook). "+
 			"NOT decided: round-trip equality of contents and deadlines on concrete runs; gob encoding.",
 		[]string{"encoding/gob round-trips exported fields", "Set / SetExpiresAfter / SetRefreshableAfter behave as C01/C12 decide"},
-		ruleC19Fields, ruleC19Load, ruleC19Save, ruleC03Filter, ruleC12Bound, ruleC05LockRead)
+		ruleC19Fields, ruleC19Load, ruleC19Save, ruleC03Filter, ruleC12Bound, ruleC05LockRead, ruleC12Hooks)
 }
 
 func entryFieldLoad(v ssa.Value, field string) bool {
@@ -160,6 +161,57 @@ func ruleC19Load(cx *Ctx) {
 		}
 	})
 	cx.R.Check(filterOK, rFilter, name, "skip expired", cx.P.where(now), "an entry with ExpiresAtNano <= now is skipped (same boundary as HasExpired), only when expiration is configured")
+	// the decode target: gob leaves fields whose encoded value is zero untouched, so the record decoded in an
+	// iteration must start from the zero value - a variable of the loop body, or one reset before every Decode
+	decN, decOK := 0, true
+	var decAt ssa.Instruction
+	allInstrs(fn, func(in ssa.Instruction) {
+		c, ok := in.(*ssa.Call)
+		if !ok || c.Call.StaticCallee() == nil || c.Call.StaticCallee().Name() != "Decode" || len(c.Call.Args) < 2 {
+			return
+		}
+		arg := c.Call.Args[1]
+		if mi, ok := arg.(*ssa.MakeInterface); ok {
+			arg = mi.X
+		}
+		pt, isPtr := arg.Type().Underlying().(*types.Pointer)
+		if !isPtr || namedTypeName(pt.Elem()) != "Entry" {
+			return
+		}
+		decN++
+		decAt = c
+		al, ok := arg.(*ssa.Alloc)
+		if !ok {
+			decOK = false
+			return
+		}
+		var loop map[*ssa.BasicBlock]bool
+		for h := range loopHeaders(fn) {
+			if l := naturalLoop(h); l[c.Block()] && (loop == nil || len(l) < len(loop)) {
+				loop = l
+			}
+		}
+		if loop == nil || loop[al.Block()] {
+			return
+		}
+		reset := false
+		for _, r := range *al.Referrers() {
+			if st, ok := r.(*ssa.Store); ok && st.Addr == ssa.Value(al) && loop[st.Block()] && instrDominates(st, c) {
+				if _, fresh := st.Val.(*ssa.Const); fresh {
+					reset = true
+				}
+				if ld, ok := st.Val.(*ssa.UnOp); ok && ld.Op == token.MUL {
+					if a2, ok := ld.X.(*ssa.Alloc); ok && loop[a2.Block()] {
+						reset = true
+					}
+				}
+			}
+		}
+		if !reset {
+			decOK = false
+		}
+	})
+	cx.R.Check(decN >= 1 && decOK, rFilter, name, "fresh decode target", cx.P.where(decAt), "every record is decoded into a zero-valued Entry of its own iteration (gob does not overwrite fields that were saved as zero)")
 	cx.R.Check(instrDominates(now, set), rFilter, name, "clock sampled per entry", cx.P.where(now), "the clock is sampled for every entry before it is inserted")
 	// restore
 	for _, rs := range []struct {
